@@ -227,9 +227,8 @@ def check(pid, tier, seed):
         ab = ab if ab != ("Empty",) else ()
         pre_grp.append((s0, expected(pieces0, cases[ab[:4]]), "called during static initialisation"))
     groups.append(pre_grp)
-    lines.append("X g%d pre=1" % (len(groups) - 1))
-    lines += ["S s=%s" % hx(s) for s, _, _ in pre_grp]
-    lines.append("E")
+    pre_gi = len(groups) - 1
+    pre_lines = ["X g%d pre=1" % pre_gi] + ["S s=%s" % hx(s) for s, _, _ in pre_grp] + ["E"]
     inputs = inputs + pre_grp
     # the same function from four threads at once: a sample of well-formed and fallback inputs, first judged serially like all
     # the others, then asked again concurrently by the harness (event Conc)
@@ -242,6 +241,13 @@ def check(pid, tier, seed):
     lines.append("E")
     inputs = inputs + conc_grp
     res = common.run_harness(exe, "\n".join(lines) + "\n")
+    # the pre-main answers come from a run of their own (LOCALE_PREMAIN makes the harness ask before main()): if the function
+    # crashes there, that run dies before it can report anything
+    try:
+        res.update(common.run_harness(exe, "\n".join(pre_lines) + "\n", shards=1, env={"LOCALE_PREMAIN": "1"}))
+    except common.InfraError as e:
+        verdict.violation("locale[called during static initialisation] the process died before main()", str(e)[:400],
+                          {"component": "locale", "class": "called during static initialisation", "inputs": PRE_MAIN})
     nonfb = 0
     distinct = set()
     cr = next((r for r in res.get("g%d" % conc_gi, []) if r.get("e") == "Conc"), None)
